@@ -327,6 +327,8 @@ pub fn plan(tier: Tier) -> Plan {
         checks.push(ser::<QP<6>>(a, al.clone(), dq));
         checks.push(ser::<QP<7>>(a, al.clone(), dq));
     }
+    checks.push(cross(SerSpec::<U<Variance>> { alpha_name: "tri".into(), alpha: sub_alphabet("tri", 3), words: words_of(&sub_alphabet("tri", 3)) }, 4));
+    checks.push(cross(SerSpec::<QP<4>> { alpha_name: "qties".into(), alpha: sub_alphabet("qties", 3), words: words_of(&sub_alphabet("qties", 3)) }, 7));
     // a checkpoint after every observation of long periodic streams
     let n = if q { 200 } else { 5000 };
     for a in ["tri", "qties", "dec"] {
